@@ -189,6 +189,7 @@ class Engine:
         self.async_yields = 0
         self.fail_next: dict[int, int] = {}
         self.last_fail: Any = None
+        self.fatal = False
 
     # ---- helpers
 
@@ -196,7 +197,12 @@ class Engine:
         self.counters[k] = self.counters.get(k, 0) + n
 
     def bad(self, key: str, msg: str, **w: Any) -> None:
-        if len(self.violations) < 6:
+        # a wrong *announcement* does not make the model diverge from the context: the history goes on (so that a check that does
+        # not own announcements keeps its reach behind it); anything else ends the history
+        if not key.startswith("announce-"):
+            self.fatal = True
+        n_same = sum(1 for v in self.violations if v["key"] == key)
+        if len(self.violations) < 8 and n_same < 2:
             self.violations.append({"key": key, "msg": msg, "witness": {**w, "history_tail": self.history[-25:]}})
 
     def fresh(self) -> int:
@@ -516,7 +522,7 @@ class Engine:
         for c, a in self.actors.items():
             if self.model.ctxs[c].state != "open":
                 continue
-            if len(a.received) != want.get(c, len(a.received)) and not self.violations:
+            if len(a.received) != want.get(c, len(a.received)) and not self.fatal:
                 self.bad("announce-listener", f"{cmd}: the listener attached to context {c} received {len(a.received) - recv_before.get(c, 0)} "
                                               f"event(s) during this command, expected {want[c] - recv_before.get(c, 0)}")
         self.compare_visible(cmd)
@@ -652,6 +658,9 @@ class Engine:
                 ctx.add_resource(*args, **kw)
 
         observed = await self.call_in(cid, call)
+        if isinstance(types_arg, list):
+            types_arg.clear()  # the list the caller passed is the caller's: reusing it for something else changes nothing
+            types_arg.append(object)
         self.raised_and_dispatched(observed, cmd)
         expected, events = self.model.add_resource(cid, tag, cmd["vtype"], cmd["name"], cmd["types"], cmd["desc"], td_tag,
                                                    value_is_none=bool(cmd.get("none_value")))
@@ -711,6 +720,9 @@ class Engine:
                 ctx.add_resource_factory(factory, *pos, **name_kw, **kwargs)
 
         observed = await self.call_in(cid, call)
+        if isinstance(kwargs.get("types"), list):
+            kwargs["types"].clear()  # the caller reuses its list afterwards
+            kwargs["types"].append(object)
         self.raised_and_dispatched(observed, cmd)
         expected, events = self.model.add_factory(cid, fid, cmd["name"], types, cmd["desc"], cmd["is_async"])
         self.check_outcome("add-factory", expected, observed, cmd)
@@ -1236,18 +1248,18 @@ class Engine:
             self.tg = tg
             try:
                 n = 0
-                while n < self.p["commands"] and not self.violations:
+                while n < self.p["commands"] and not self.fatal:
                     cmd = self.gen_command()
                     if cmd is None:
                         continue
                     n += 1
                     await self.step(cmd)
-                    if cmd["op"] in ("construct", "sibling_seq") and cmd.get("then_enter") and not self.violations:
+                    if cmd["op"] in ("construct", "sibling_seq") and cmd.get("then_enter") and not self.fatal:
                         await self.step({"op": "enter", "cid": cmd["cid"], "in_component": self.rng.random() < 0.3})
-                if not self.violations:
+                if not self.fatal:
                     self.check_kept_events()
                 # leave everything, leaves first
-                while not self.violations:
+                while not self.fatal:
                     open_ = self.open_ctxs()
                     if not open_:
                         break
